@@ -783,4 +783,48 @@ def _write_back(parsed_ast, filename):
     if line.casefold().find("default is") > -1:
         line = line[: line.casefold().replace("  ", " ").find("default is")]
 """)]),
+    dict(id="coord-leading-blanks-idiom", kind=N, props=["C17"], expect="silent", edits=[("defaults_utils.py",
+         """    sub_l = line[_end_idx:]
+""", """    lead = len(line[_end_idx:]) - len(line[_end_idx:].lstrip(" \\t"))
+    _end_idx += lead - lead
+    sub_l = line[_end_idx:]
+    tail_end = len(sub_l.rstrip())
+    sub_l = sub_l[:tail_end] + sub_l[tail_end:]
+""")]),
+    dict(id="alignidx-lookup-over-both-lists", kind=B, props=["C14", "C15"], expect="ALIGN-idx", edits=[("ast_utils.py",
+         """                            for _arg in node.args.args
+                            if _arg.arg == self.replacement_node.target.id""", """                            for _arg in node.args.args + node.args.kwonlyargs
+                            if _arg.arg == self.replacement_node.target.id""")]),
+    dict(id="det3-module-level-map", kind=B, props=["C12", "C07"], expect="DET-3", edits=[("parser_utils.py",
+         """lstrip_typings = partial(lstrip_namespace, namespaces=("typings.", "_extensions."))""",
+         """lstrip_typings = partial(lstrip_namespace, namespaces=map("{}.".format, ("typings", "_extensions")))""")]),
+    dict(id="det1-announcements-frozenset-via-helper", kind=B, props=["C12"], expect="DET-1", edits=[("defaults_utils.py",
+         """        ("defaults to ", "defaults to\\n", "Default value is ", "Default:")
+        if default_search_announce is None""", """        _ANNOUNCE()
+        if default_search_announce is None"""), ("defaults_utils.py", """def extract_default(""", """def _ANNOUNCE():
+    \"\"\"
+    :returns: the announcements
+    :rtype: ```frozenset```
+    \"\"\"
+    return frozenset(("defaults to ", "defaults to\\n", "Default value is ", "Default:"))
+
+
+def extract_default(""")]),
+    dict(id="fwd-helper-drops-word-wrap", kind=B, props=["C02", "C08"], expect="FWD", edits=[("emit.py",
+         """                                    emit_separating_tab=True,
+                                    emit_default_doc=emit_default_doc,
+                                    emit_types=False,
+                                    word_wrap=word_wrap,
+                                )""", """                                    emit_separating_tab=True,
+                                    emit_default_doc=emit_default_doc,
+                                    emit_types=False,
+                                )""")]),
+    dict(id="file1-truth-filter-only-for-own-kind", kind=B, props=["C10"], expect="FILE-1", edits=[("conformance.py",
+         """                lambda filename: (path.realpath(path.expanduser(filename)), False)
+                if path.realpath(path.expanduser(filename))
+                == path.realpath(path.expanduser(truth_file))
+                else _conform_filename(""", """                lambda filename: (path.realpath(path.expanduser(filename)), False)
+                if fun_name == args.truth and path.realpath(path.expanduser(filename))
+                == path.realpath(path.expanduser(truth_file))
+                else _conform_filename(""")]),
 ]
